@@ -15,7 +15,7 @@
 (***************************************************************************)
 EXTENDS Integers, Sequences, FiniteSets, TLC
 
-CONSTANTS Kinds,        \* subset of {"vv", "vr", "mem", "inv", "vrbig"}
+CONSTANTS Kinds,        \* subset of {"vv", "vr", "mem", "inv", "vrbig", "stk"}
           MaxStrLen,    \* string lengths 0..MaxStrLen
           Forks,        \* fork names for the invisibility vectors
           WorkBound     \* bytes a flat-fee journal instruction may copy / allocate (C20)
@@ -101,7 +101,11 @@ INV == {[k |-> "inv", op |-> o, fork |-> f, static |-> st] : o \in 0..7, f \in F
 \* C20: a header that claims a huge (well-formed) long string; 1..4 = 2^10, 2^16, 2^20, 2^32 bytes
 VRBIG == {[k |-> "vrbig", cls |-> c] : c \in 1..4}
 
-Vectors == (IF "vv" \in Kinds THEN VV ELSE {}) \cup (IF "vr" \in Kinds THEN VR ELSE {})
+\* every journal opcode at every stack height around its arity: too few operands is a stack underflow like for any instruction
+Arity == <<3, 4, 6, 5, 6, 5, 4, 2>>
+STK == {[k |-> "stk", op |-> o, height |-> h] : o \in 0..7, h \in 0..8}
+
+Vectors == (IF "stk" \in Kinds THEN STK ELSE {}) \cup (IF "vv" \in Kinds THEN VV ELSE {}) \cup (IF "vr" \in Kinds THEN VR ELSE {})
            \cup (IF "mem" \in Kinds THEN MEM ELSE {}) \cup (IF "inv" \in Kinds THEN INV ELSE {})
            \cup (IF "vrbig" \in Kinds THEN VRBIG ELSE {})
 
@@ -127,6 +131,7 @@ Expect(v) ==
                      [err |-> d.err, bytes |-> d.bytes, header |-> VRHeader(v), area |-> VRArea(v)]
     [] v.k = "mem" -> [outcome |-> MemOutcome(v.msize, v.ptr, v.len)]
     [] v.k = "inv" -> [invisible |-> TRUE]
+    [] v.k = "stk" -> [underflow |-> (v.height < Arity[v.op + 1])]
     [] v.k = "vrbig" -> [bounded |-> TRUE]
 
 \* design sanity: the decoder inverts the compiler's layout for every length and content pattern
